@@ -666,6 +666,10 @@ def run(tier, replay=None):
 
         # ================================================================== D. command line
         cli(chk, drv, r, tier, work, S, pysam)
+        # E. the prior each program's model is run with IS the record's prior (frequencies after masking, the alleles left after
+        # masking), for every sample: the plumbing observer on call / call-exact / call-pedigree with and without --prior-frequencies
+        from . import plumbing
+        plumbing.run_plumbing(chk, C.rng(PROP + ":plumbing"), None, PROP, programs=("call", "call-exact", "call-pedigree"), tier=tier)
     finally:
         shutil.rmtree(work, ignore_errors=True)
     return chk.finish()
